@@ -129,6 +129,10 @@ def correspondence(pid, tier, seed):
     res = execute(scs)
     grid_broken = []
     grid_n = 0
+    if pid == 'C13':            # the powertrain's self-locking flag comes from the relation declarations and the assembly
+        import fam_rel
+        rel = fam_rel.correspondence('C20', tier, seed)
+        grid_broken = [b for b in rel['broken']]
     if pid in ('C11', 'C12'):
         grid_broken, grid_n = grid_correspondence(seed, 6 if tier == 'quick' else 40)
     usable = [(s, r) for s, r in zip(scs, res) if not (r['err'] or '').startswith('Other:Timeout')]
@@ -272,6 +276,11 @@ def search(pid, tier, seed, escalate, hints):
             out += O.c12_check(sc, rng)
         if len([w for w in out if w['cls'] not in ('D4',)]) >= 5:
             break
+    if pid == 'C13':
+        import fam_rel
+        ws, k = fam_rel.search('C20', tier, seed, escalate, [])
+        out += [w for w in ws if w['cls'] == 'self-locking']
+        n_checked += k
     return out, n_checked
 
 
